@@ -16,6 +16,14 @@ fn main() {
         "handletable" => run_engine(&mut caoverif::e_handletable::HandleTableEngine::default(), &opts),
         "stacks" => run_engine(&mut caoverif::e_stacks::StacksEngine::default(), &opts),
         "module" => run_engine(&mut caoverif::e_module::ModuleEngine::default(), &opts),
+        "prog" | "prog-closures" => {
+            let mut e = caoverif::e_prog::ProgEngine {
+                pid: if args[1] == "prog" { "C01" } else { "C06" },
+                closures: args[1] == "prog-closures",
+                dev_profile: cfg!(debug_assertions),
+            };
+            run_engine(&mut e, &opts)
+        }
         other => {
             eprintln!("unknown engine {other}");
             64
